@@ -230,7 +230,8 @@ class Normalize(Command):
     output = params.DataParameter()
 
     def execute(self, **kwargs):
-        arr = kwargs["InFieldName"].result
+        # (a plain ndarray - a plug-in command's result - divides by zero into NaN where a masked array gives a missing cell)
+        arr = make_masked(kwargs["InFieldName"].result)
         start = kwargs.get("StartVal", 0)
         end = kwargs.get("EndVal", 1)
 
@@ -255,7 +256,7 @@ class NormalizeZScore(Command):
     output = params.DataParameter()
 
     def execute(self, **kwargs):
-        arr = kwargs["InFieldName"].result
+        arr = make_masked(kwargs["InFieldName"].result)
         true_threshold = float(kwargs.get("TrueThresholdZScore", 0))
         false_threshold = float(kwargs.get("FalseThresholdZScore", 1))
         start = kwargs.get("StartVal", 0)
